@@ -117,6 +117,16 @@ theorem layoutFrom_packed (f : Flags) (n : Nat) (udim : Nat → Nat) (fuel i off
       exact this _ _ _ _ h1
 
 
+theorem foldl_setRow_getD_ne' {β : Type} (vs : List LayoutVar) (val : LayoutVar → List β) (w0 : List (List β)) (i : Nat)
+    (h : ∀ v ∈ vs, v.point ≠ i) :
+    (vs.foldl (fun w v => setRow w v.point (val v)) w0).getD i [] = w0.getD i [] := by
+  induction vs generalizing w0 with
+  | nil => rfl
+  | cons v vs ih =>
+    rw [List.foldl_cons, ih _ (fun x hx => h x (by simp [hx]))]
+    simp only [setRow, List.getD_eq_getElem?_getD]
+    rw [List.getElem?_set_ne (h v (by simp))]
+
 /-! ## decode ∘ initialGuess -/
 section rt
 variable {K : Type} [Field K]
